@@ -602,6 +602,511 @@ class _LruAccessor:
         return isinstance(v, ast.Name) and v.id in self.f.params[2:]
 
 
+# ---------------------------------------------------------------------- C54-R5: bounded model conformance
+class _El:
+    """an element of the bounded universe: hashable, compared by identity (what IdentitySet is about)"""
+    __slots__ = ("n",)
+
+    def __init__(self, n):
+        self.n = n
+
+    def __repr__(self):
+        return self.n
+
+
+_A, _B, _C, _D, _E = (_El(n) for n in "abcde")
+_UNIVERSE = (_A, _B, _C, _D, _E)
+_RECEIVERS = ([], [_A], [_B, _A], [_A, _B, _C])
+_OPERANDS = ([], [_A], [_D], [_A, _A], [_D, _D], [_A, _D, _A, _D], [_B, _A], [_C, _B, _A], [_D, _C, _D, _E], [_E, _D])
+_ORDERED_KINDS = ("list", "tuple", "iterator", "generator", "same class")
+_ALL_KINDS = _ORDERED_KINDS + ("set", "frozenset")
+
+
+def _uniq(seq):
+    out = []
+    for x in seq:
+        if not any(x is y for y in out):
+            out.append(x)
+    return out
+
+
+def _mk_operand(kind, seq, cls):
+    if kind == "list":
+        return list(seq)
+    if kind == "tuple":
+        return tuple(seq)
+    if kind == "iterator":
+        return iter(list(seq))
+    if kind == "generator":
+        return (x for x in list(seq))
+    if kind == "set":
+        return set(seq)
+    if kind == "frozenset":
+        return frozenset(seq)
+    return cls(list(seq))
+
+
+def _set_model(op, recv, others):
+    """reference result of a set-algebra operation as an insertion-ordered list: (retained part in receiver order,
+    appended part in first-occurrence order of the arguments) -- contents are those of the builtin set operation"""
+    if op in ("union", "update"):
+        app = []
+        for o in others:
+            app += [x for x in _uniq(o) if x not in recv and x not in app]
+        return list(recv), app
+    if op in ("intersection", "intersection_update"):
+        return [x for x in recv if all(x in o for o in others)], []
+    if op in ("difference", "difference_update"):
+        return [x for x in recv if not any(x in o for o in others)], []
+    if op in ("symmetric_difference", "symmetric_difference_update"):
+        (o,) = others
+        return [x for x in recv if x not in o], [x for x in _uniq(o) if x not in recv]
+    raise AssertionError(op)
+
+
+_PURE_OPS = ("union", "intersection", "difference", "symmetric_difference")
+_INPLACE_OPS = ("update", "intersection_update", "difference_update", "symmetric_difference_update")
+_BIN_OPERATORS = {"__or__": "union", "__and__": "intersection", "__sub__": "difference", "__xor__": "symmetric_difference"}
+_INPLACE_OPERATORS = {"__ior__": "update", "__iand__": "intersection_update", "__isub__": "difference_update",
+                      "__ixor__": "symmetric_difference_update"}
+
+
+class _SetBench:
+    """runs one set-like library class (interpreted) against the reference model"""
+
+    def __init__(self, ctx, interp, relpath, cname, ordered: bool, variadic: bool, strict_operators: bool):
+        self.ctx, self.m, self.relpath, self.cname = ctx, interp, relpath, cname
+        self.cls = interp.cls(cname)
+        self.ordered = ordered              # iteration order is part of the model (OrderedSet)
+        self.variadic = variadic            # union / intersection / difference / *_update take *iterables
+        self.strict = strict_operators      # operators answer NotImplemented for operands of another type
+        self.unsupported = []
+
+    # ---- observation through the public protocol
+    def new(self, seq):
+        st, v = self.m.invoke(self.cls, list(seq))
+        if st != "ok":
+            raise _Broken(f"{self.cname}({list(seq)!r}) raises {type(v).__name__}: {v}")
+        return v
+
+    def observe(self, inst, what):
+        st, it = self.m.invoke(list, inst)
+        if st != "ok":
+            return None, f"iterating {what} raises {type(it).__name__}: {it}"
+        st, n = self.m.invoke(len, inst)
+        if st != "ok":
+            return None, f"len({what}) raises {type(n).__name__}: {n}"
+        if len(_uniq(it)) != len(it):
+            return None, f"{what} iterates {it!r}: an element is repeated"
+        if n != len(it):
+            return None, f"{what} iterates {it!r} but len() is {n}"
+        for x in _UNIVERSE:
+            st, r = self.m.invoke(lambda: x in inst)
+            if st != "ok" or bool(r) != (x in it):
+                return None, f"`{x!r} in {what}` is {r!r} while iteration gives {it!r}"
+        if isinstance(inst, set) and set(set.__iter__(inst)) != set(it):
+            return None, f"{what} iterates {it!r} but its set part holds {sorted(set.__iter__(inst), key=repr)!r}"
+        return it, None
+
+    def same(self, got, retained, appended, unordered_tail=False) -> bool:
+        want = retained + appended
+        if not self.ordered:
+            return len(got) == len(want) and all(x in want for x in got)
+        if unordered_tail:
+            k = len(retained)
+            return got[:k] == retained and len(got) == len(want) and all(x in appended for x in got[k:])
+        return got == want
+
+    # ---- one method = one rule instance
+    def record(self, mname, cases, aspect=""):
+        key = f"{self.relpath}::{self.cname}.{mname}:model" + (f"[{aspect}]" if aspect else "")
+        from ._helpers_str2_w import Unsupported
+        n = 0
+        fails = []
+        try:
+            for case in cases:
+                n += 1
+                msg = case()
+                if msg:
+                    fails.append(msg)
+        except Unsupported as e:
+            self.unsupported.append(f"{self.cname}.{mname}: {e}")
+            return
+        except _Broken as e:
+            fails.append(str(e))
+        f = self.ctx.index.resolve_method(self.ctx.index.cls(f"{self.relpath}::{self.cname}"), mname)
+        loc = f.loc if f is not None else None
+        if f is not None:
+            self.ctx.functions_analysed.add(f.key)
+        self.ctx.check(not fails, key,
+                       f"{self.cname}.{mname} does not behave like the reference {'insertion-ordered ' if self.ordered else ''}set "
+                       f"on {len(fails)} of {n} bounded inputs; first: {fails[0] if fails else ''}",
+                       f"{n} bounded inputs agree with the reference model", loc)
+
+    # ---- case builders
+    def algebra(self, op, pure: bool, via=None, operands=_OPERANDS, kinds=_ALL_KINDS):
+        """cases of `recv.<via or op>(operand)` for every receiver / operand / operand kind, plus the receiver itself"""
+        meth = via or op
+
+        def one(recv_seq, kind, seq):
+            def run():
+                recv = self.new(recv_seq)
+                arg = recv if kind == "itself" else _mk_operand(kind, seq, self.cls)
+                arg_is_inst = kind in ("same class", "itself")
+                shown = f"{self.cname}({recv_seq!r}).{meth}({'<itself>' if kind == 'itself' else kind + ' ' + repr(list(seq))})"
+                st, res = self.m.invoke(getattr(recv, meth), arg)
+                if st != "ok":
+                    return f"{shown} raises {type(res).__name__}: {res}"
+                retained, appended = _set_model(op, list(recv_seq), [list(seq)])
+                unordered = kind in ("set", "frozenset")
+                after, err = self.observe(recv, "the receiver after " + shown)
+                if err:
+                    return err
+                if pure:
+                    if type(res) is not self.cls:
+                        return f"{shown} returns {res!r}, not a {self.cname}"
+                    if res is recv:
+                        return f"{shown} returns the receiver itself instead of a new {self.cname}"
+                    got, err = self.observe(res, "the result of " + shown)
+                    if err:
+                        return err
+                    if not self.same(got, retained, appended, unordered):
+                        return f"{shown} -> {got!r}, the model gives {retained + appended!r}"
+                    if after != list(recv_seq):
+                        return f"{shown} changed the receiver to {after!r}"
+                else:
+                    want_ret = recv if via in _INPLACE_OPERATORS else None
+                    if res is not want_ret:
+                        return f"{shown} returns {res!r} instead of {'the receiver' if want_ret is recv else 'None'}"
+                    if not self.same(after, retained, appended, unordered):
+                        return f"{shown} leaves {after!r}, the model gives {retained + appended!r}"
+                if arg_is_inst and kind != "itself":
+                    a2, err = self.observe(arg, "the argument after " + shown)
+                    if err:
+                        return err
+                    if a2 != _uniq(seq):
+                        return f"{shown} changed its argument to {a2!r}"
+                return None
+            return run
+        out = []
+        for r in _RECEIVERS:
+            for seq in operands:
+                for k in kinds:
+                    out.append(one(r, k, seq))
+            out.append(one(r, "itself", r))
+        return out
+
+    def rejects_foreign_operand(self, meth):
+        def run():
+            recv = self.new([_A, _B])
+            st, res = self.m.invoke(getattr(recv, meth), [_A])
+            if st != "ok" or res is not NotImplemented:
+                return f"{self.cname}([a, b]).{meth}(list [a]) gives {res!r}; a set operator answers NotImplemented for an operand that is no {self.cname}"
+            after, err = self.observe(recv, "the receiver")
+            return err or (None if after == [_A, _B] else f"{meth}(list) changed the receiver to {after!r}")
+        return [run]
+
+
+class _Broken(Exception):
+    pass
+
+
+def _variadic_cases(b: "_SetBench", op, pure):
+    """*iterables forms: no argument, two arguments"""
+    def one(recv_seq, seqs):
+        def run():
+            recv = b.new(recv_seq)
+            args = [_mk_operand(k, s_, b.cls) for k, s_ in zip(("list", "iterator", "same class"), seqs)]
+            shown = f"{b.cname}({recv_seq!r}).{op}({', '.join(repr(list(s_)) for s_ in seqs)})"
+            st, res = b.m.invoke(getattr(recv, op), *args)
+            if st != "ok":
+                return f"{shown} raises {type(res).__name__}: {res}"
+            retained, appended = _set_model(op, list(recv_seq), [list(s_) for s_ in seqs])
+            target = res if pure else recv
+            if pure and (type(res) is not b.cls or res is recv):
+                return f"{shown} returns {res!r}, not a new {b.cname}"
+            got, err = b.observe(target, ("the result of " if pure else "the receiver after ") + shown)
+            if err:
+                return err
+            if not b.same(got, retained, appended):
+                return f"{shown} -> {got!r}, the model gives {retained + appended!r}"
+            return None
+        return run
+    out = []
+    for r in _RECEIVERS:
+        for seqs in ((), ([_A, _D], [_D, _B, _E]), ([_C, _A], [_A, _A, _B]), ([_D, _D], [])):
+            out.append(one(r, seqs))
+    return out
+
+
+def _element_cases(b: "_SetBench"):
+    """add / remove / discard / pop / clear / copy and, for the ordered set, insert / __getitem__"""
+    def mut(mname, model, args_of):
+        def one(recv_seq, args):
+            def run():
+                recv = b.new(recv_seq)
+                shown = f"{b.cname}({recv_seq!r}).{mname}({', '.join(map(repr, args))})"
+                want_exc, want_ret, want = model(list(recv_seq), *args)
+                st, res = b.m.invoke(getattr(recv, mname), *args)
+                if want_exc is not None:
+                    if st != "raise" or not isinstance(res, want_exc):
+                        return f"{shown} {'returns ' + repr(res) if st == 'ok' else 'raises ' + type(res).__name__}; the model raises {want_exc.__name__}"
+                elif st != "ok":
+                    return f"{shown} raises {type(res).__name__}: {res}"
+                elif want_ret is _ANY_MEMBER:
+                    if res not in recv_seq:
+                        return f"{shown} returns {res!r}, which was not a member"
+                    want = [x for x in recv_seq if x is not res]
+                elif res is not want_ret and res != want_ret:
+                    return f"{shown} returns {res!r}, the model returns {want_ret!r}"
+                after, err = b.observe(recv, "the receiver after " + shown)
+                if err:
+                    return err
+                if not b.same(after, want, []):
+                    return f"{shown} leaves {after!r}, the model gives {want!r}"
+                return None
+            return run
+        return [one(r, a) for r in _RECEIVERS for a in args_of(r)]
+
+    elems = lambda r: [(x,) for x in (_A, _C, _D)]
+    b.record("add", mut("add", lambda M, x: (None, None, M + [x] if x not in M else M), elems))
+    b.record("remove", mut("remove", lambda M, x: (None, None, [y for y in M if y is not x]) if x in M else (KeyError, None, M), elems))
+    b.record("discard", mut("discard", lambda M, x: (None, None, [y for y in M if y is not x]), elems))
+    b.record("pop", mut("pop", lambda M: (None, _ANY_MEMBER, None) if M else (KeyError, None, M), lambda r: [()]))
+    b.record("clear", mut("clear", lambda M: (None, None, []), lambda r: [()]))
+    if b.ordered:
+        def ins(M, pos, x):
+            if x in M:
+                return None, None, M
+            M2 = list(M)
+            M2.insert(pos, x)
+            return None, None, M2
+        b.record("insert", mut("insert", ins, lambda r: [(p_, x) for p_ in (-5, -1, 0, 1, 5) for x in (_A, _D)]))
+
+        def getitem(recv_seq, i):
+            def run():
+                recv = b.new(recv_seq)
+                st, res = b.m.invoke(lambda: recv[i])
+                try:
+                    want = list(recv_seq)[i]
+                except IndexError:
+                    return None if st == "raise" and isinstance(res, IndexError) else f"{b.cname}({recv_seq!r})[{i}] does not raise IndexError"
+                return None if st == "ok" and res is want else f"{b.cname}({recv_seq!r})[{i}] gives {res!r}, iteration order says {want!r}"
+            return run
+        b.record("__getitem__", [getitem(r, i) for r in _RECEIVERS for i in (-4, -1, 0, 2, 3)])
+
+    def copies(mname):
+        def one(recv_seq):
+            def run():
+                recv = b.new(recv_seq)
+                st, res = b.m.invoke(getattr(recv, mname))
+                shown = f"{b.cname}({recv_seq!r}).{mname}()"
+                if st != "ok" or type(res) is not b.cls or res is recv:
+                    return f"{shown} gives {res!r}, not a new {b.cname}"
+                got, err = b.observe(res, "the result of " + shown)
+                if err or not b.same(got, list(recv_seq), []):
+                    return err or f"{shown} -> {got!r}"
+                st, _ = b.m.invoke(res.add, _E)
+                after, err = b.observe(recv, "the receiver after adding to its copy")
+                if err or after != list(recv_seq):
+                    return err or f"adding to the result of {shown} changed the receiver to {after!r}"
+                return None
+            return run
+        return [one(r) for r in _RECEIVERS]
+    b.record("copy", copies("copy"))
+
+    def ctor(kind, seq):
+        def run():
+            st, res = b.m.invoke(b.cls, _mk_operand(kind, seq, b.cls))
+            shown = f"{b.cname}({kind} {list(seq)!r})"
+            if st != "ok":
+                return f"{shown} raises {type(res).__name__}: {res}"
+            got, err = b.observe(res, shown)
+            if err:
+                return err
+            return None if b.same(got, [], _uniq(seq), kind in ("set", "frozenset")) else f"{shown} holds {got!r}, the model gives {_uniq(seq)!r}"
+        return run
+    b.record("__init__", [ctor(k, s_) for s_ in _OPERANDS for k in _ALL_KINDS])
+
+
+_ANY_MEMBER = object()
+
+
+def _comparison_cases(b: "_SetBench"):
+    import operator as op_
+    table = {"__eq__": op_.eq, "__ne__": op_.ne, "__le__": op_.le, "__lt__": op_.lt, "__ge__": op_.ge, "__gt__": op_.gt,
+             "issubset": lambda x, y: x <= y, "issuperset": lambda x, y: x >= y}
+    for mname, ref in table.items():
+        def one(recv_seq, seq, kind, mname=mname, ref=ref):
+            def run():
+                recv = b.new(recv_seq)
+                arg = _mk_operand(kind, seq, b.cls)
+                st, res = b.m.invoke(getattr(recv, mname), arg)
+                shown = f"{b.cname}({recv_seq!r}).{mname}({kind} {list(seq)!r})"
+                if st != "ok":
+                    return f"{shown} raises {type(res).__name__}: {res}"
+                if kind != "same class" and mname.startswith("__"):
+                    want = {"__eq__": False, "__ne__": True}.get(mname, NotImplemented)
+                else:
+                    want = ref(set(recv_seq), set(seq))
+                return None if (res is want or (res == want and want is not NotImplemented and res is not NotImplemented)) \
+                    else f"{shown} is {res!r}, the model gives {want!r}"
+            return run
+        kinds = ("same class", "list") if mname.startswith("__") else _ALL_KINDS
+        b.record(mname, [one(r, s_, k) for r in _RECEIVERS for s_ in _OPERANDS for k in kinds])
+
+
+def _model_set_class(ctx, interp, relpath, cname, ordered, variadic, strict, comparisons):
+    b = _SetBench(ctx, interp, relpath, cname, ordered, variadic, strict)
+    for op in _PURE_OPS:
+        b.record(op, b.algebra(op, True) + (_variadic_cases(b, op, True) if variadic and op != "symmetric_difference" else []))
+    for op in _INPLACE_OPS:
+        b.record(op, b.algebra(op, False) + (_variadic_cases(b, op, False) if variadic and op != "symmetric_difference_update" else []))
+    set_kinds = ("same class",) if strict else ("same class", "set", "frozenset")
+    for meth, op in _BIN_OPERATORS.items():
+        b.record(meth, b.algebra(op, True, via=meth, kinds=set_kinds) + (b.rejects_foreign_operand(meth) if strict else []))
+    for meth, op in _INPLACE_OPERATORS.items():
+        b.record(meth, b.algebra(op, False, via=meth, kinds=set_kinds) + (b.rejects_foreign_operand(meth) if strict else []))
+    if comparisons:
+        _comparison_cases(b)
+    _element_cases(b)
+    return b.unsupported
+
+
+# ---- immutabledict
+_DICT_RECEIVERS = ({}, {"a": 1}, {"a": 1, "b": 2})
+_DICT_OPERANDS = ({}, {"a": "x"}, {"c": 3}, {"b": "y", "c": 3}, {"c": 3, "a": "x"})
+
+
+def _model_immutabledict(ctx, interp):
+    import types as _t
+    from ._helpers_str2_w import Unsupported
+    cname = "immutabledict"
+    cls = interp.cls(cname)
+    unsupported = []
+    kinds = {"dict": dict, cname: cls, "read-only mapping": lambda d: _t.MappingProxyType(dict(d))}
+
+    def items(d):
+        return list(dict.items(d)) if isinstance(d, dict) else list(d.items())
+
+    def record(mname, cases):
+        key = f"{IMM}::{cname}.{mname}:model"
+        fails, n = [], 0
+        try:
+            for c in cases:
+                n += 1
+                msg = c()
+                if msg:
+                    fails.append(msg)
+        except Unsupported as e:
+            unsupported.append(f"{cname}.{mname}: {e}")
+            return
+        f = ctx.index.resolve_method(ctx.index.cls(f"{IMM}::{cname}"), mname)
+        if f is not None:
+            ctx.functions_analysed.add(f.key)
+        ctx.check(not fails, key,
+                  f"{cname}.{mname} does not behave like the reference dict on {len(fails)} of {n} bounded inputs; first: {fails[0] if fails else ''}",
+                  f"{n} bounded inputs agree with the builtin dict", f.loc if f is not None else None)
+
+    def merge_case(mname, recv_d, operands, expected, shown_args):
+        def run():
+            recv = cls(dict(recv_d))
+            args = [None if o is None else kinds[k](dict(o)) for k, o in operands]
+            before = [None if a is None else items(a) for a in args]
+            shown = f"{cname}({recv_d!r}).{mname}({shown_args})"
+            st, res = interp.invoke(getattr(recv, mname), *args)
+            if st != "ok":
+                return f"{shown} raises {type(res).__name__}: {res}"
+            if type(res) is not cls:
+                return f"{shown} returns {res!r}, not an {cname}"
+            want = expected()
+            if dict(res) != want:
+                return f"{shown} -> {dict(res)!r}, the dict model gives {want!r}"
+            if items(res) != list(want.items()):
+                return f"{shown} has key order {list(res)!r}, the dict model gives {list(want)!r}"
+            if items(recv) != list(recv_d.items()):
+                return f"{shown} changed the receiver to {dict(recv)!r}"
+            for a, b4 in zip(args, before):
+                if a is not None and items(a) != b4:
+                    return f"{shown} changed its argument to {dict(a)!r}"
+            return None
+        return run
+
+    for mname in ("union", "merge_with"):
+        cases = []
+        for r in _DICT_RECEIVERS:
+            cases.append(merge_case(mname, r, [], lambda r=r: dict(r), ""))
+            cases.append(merge_case(mname, r, [("dict", None)], lambda r=r: dict(r), "None"))
+            for o in _DICT_OPERANDS:
+                for k in kinds:
+                    cases.append(merge_case(mname, r, [(k, o)], lambda r=r, o=o: {**r, **o}, f"{k} {o!r}"))
+            for o1, o2 in (({"a": "x"}, {"a": "z", "c": 3}), ({}, {"c": 3}), ({"c": 3}, {}), ({"b": "y", "c": 3}, {"c": 4, "a": "x"})):
+                for k1, k2 in (("dict", cname), (cname, "dict"), (cname, cname)):
+                    cases.append(merge_case(mname, r, [(k1, o1), (k2, o2)], lambda r=r, o1=o1, o2=o2: {**r, **o1, **o2},
+                                            f"{k1} {o1!r}, {k2} {o2!r}"))
+        record(mname, cases)
+    for mname, expected in (("__or__", lambda r, o: dict(r) | dict(o)), ("__ror__", lambda r, o: dict(o) | dict(r))):
+        cases = []
+        for r in _DICT_RECEIVERS:
+            for o in _DICT_OPERANDS:
+                for k in ("dict", cname):
+                    what = f"{k} {o!r}"
+                    cases.append(merge_case(mname, r, [(k, o)], lambda r=r, o=o, expected=expected: expected(r, o),
+                                            what + (" as the LEFT operand" if mname == "__ror__" else "")))
+        record(mname, cases)
+
+    def ctor_case(k, o):
+        def run():
+            src = kinds[k](dict(o))
+            st, res = interp.invoke(cls, src)
+            if st != "ok" or type(res) is not cls or items(res) != list(o.items()):
+                return f"{cname}({k} {o!r}) gives {res!r}"
+            st, cp = interp.invoke(res.copy)
+            if st != "ok" or type(cp) is not cls or items(cp) != list(o.items()):
+                return f"{cname}({o!r}).copy() gives {cp!r}"
+            return None
+        return run
+    record("copy", [ctor_case(k, o) for o in _DICT_OPERANDS for k in kinds])
+    # every dict mutator is rejected and leaves the contents alone
+    members, _ = python_mutators("dict")
+    sample = {"__setitem__": ("a", 9), "__delitem__": ("a",), "clear": (), "pop": ("a",), "popitem": (), "setdefault": ("z", 1),
+              "update": ({"z": 1},), "__ior__": ({"z": 1},)}
+    for mname in members:
+        ctx.require(mname in sample, f"no sample arguments for dict mutator {mname}")
+
+        def case(mname=mname):
+            recv = cls({"a": 1, "b": 2})
+            st, res = interp.invoke(getattr(recv, mname), *sample[mname])
+            if st != "raise" or not isinstance(res, TypeError):
+                return f"{cname}({{'a': 1, 'b': 2}}).{mname}{sample[mname]!r} {'returns ' + repr(res) if st == 'ok' else 'raises ' + type(res).__name__} instead of raising TypeError"
+            return None if items(recv) == [("a", 1), ("b", 2)] else f"{mname} changed the contents to {dict(recv)!r}"
+        record(mname, [case])
+    return unsupported
+
+
+@R.rule("C54-R5", floor=69, template="T-MODEL",
+        desc="bounded model check of the statement itself: every public operation of IdentitySet, OrderedSet and immutabledict is "
+             "interpreted from its source (AST interpreter; builtin bases ARE the builtin types, pure-python mode) on a small "
+             "universe -- receivers of 0..3 members, operands given as list / tuple / one-shot iterator / generator / set / "
+             "frozenset / the same class / the receiver itself, WITH repeated elements, several operands for the variadic forms, "
+             "plain dict / immutabledict / read-only mapping / None operands for the dict merges -- and must give the contents, "
+             "(for OrderedSet / immutabledict) the iteration order, the return value, the exception class and the "
+             "receiver/argument immutability of the builtin set / dict reference model")
+def r5(ctx):
+    from ._helpers_str2_w import ClassModel, Unsupported
+    unsupported = []
+    try:
+        cy = ClassModel(ctx, CY)
+        unsupported += _model_set_class(ctx, cy, CY, "IdentitySet", ordered=False, variadic=False, strict=True, comparisons=True)
+        unsupported += _model_set_class(ctx, cy, CY, "OrderedSet", ordered=True, variadic=True, strict=False, comparisons=False)
+        imm = ClassModel(ctx, IMM)
+        unsupported += _model_immutabledict(ctx, imm)
+    except Unsupported as e:
+        unsupported.append(str(e))
+    # a construct outside the interpreted subset is never a verdict
+    ctx.require(not unsupported, "source construct outside the interpreted subset: " + "; ".join(unsupported[:3]))
+
+
 # ---------------------------------------------------------------------- self-test battery
 R.mutant("orderedset-ior-returns-copy", CY,
          sub("        self.update(iterable)\n        return self\n", "        return self.union(iterable)\n"), "C54-R1")
